@@ -108,8 +108,8 @@ pub fn behaviour() -> Behaviour {
         cfg,
         adjust: no_adjust,
         render,
-        quick: 400,
-        thorough: 8000,
+        quick: 1500,
+        thorough: 20000,
         batch: 25,
         assumptions: &["what the variant prefix looks like is not fixed by the statement and not by the oracle"],
     }
